@@ -41,6 +41,8 @@ public:
             }
             YAKUSHIMA_VERIF_POINT(EPOCH_ADVANCE, nullptr);
             epoch_management::epoch_inc();
+            // pairs with the fence in thread_info_table::assign_thread_info
+            std::atomic_thread_fence(std::memory_order_seq_cst);
 
             /**
              * attention : type of epoch is uint64_t
